@@ -67,6 +67,14 @@ def run(ctx):
     mism, ofail, nontriv, known = evaluate(ctx, run)
     # tie of the CLOSED model (coq/CellOrder.v: computeCellOrder over Q + Legalizer::run with the computed order), see checks/c11_order.py
     ores = c11_order.run_order(ctx, 3000 if ctx.quick else 100000, s + 56)
+    # tie of the BINARY32 model (coq/CellOrderFloat.v: cell_order_f / legalize_float evaluated inside Coq by vm_compute, non-dyadic parameters)
+    fres = c11_order.float_tie(ctx, 100, s + 58)
+    if not ctx.quick:
+        for extra in (1, 2, 3):
+            more = c11_order.float_tie(ctx, 100, s + 58 + 1000 * extra)
+            for k, v in more.items():
+                if isinstance(v, (int, list)) and not isinstance(v, bool):
+                    fres[k] = fres[k] + v
     for l, i, why in ofail[:3]:
         ctx.violation("Circuit::legalize violates C11: " + why,
                       {"case": l, "format": "LG nrows (minX maxX minY maxY orient)* ncells (x y w h orient pol fixed obs)* custom ow10 oy10 oh10 effort twice",
@@ -79,10 +87,12 @@ def run(ctx):
         if not proof_ok:
             ctx.violation("proof obligations of Properties_C11.v do not check", {"broken": "Properties_C11.v", "detail": proof}, found_input=False)
         c11_order.report(ctx, ores)
+        c11_order.report_float(ctx, fres)
     cov = dict(proof)
-    cov.update({"trusted_base": common.TRUSTED_BASE + ["computeCellOrder is modelled over exact rationals (coq/CellOrder.v); its binary32 evaluation is outside the proof: compared exactly with the model where every float operation is exact, with a correctly rounded emulation elsewhere (checks/c11_order.py)"],
+    cov.update({"trusted_base": common.TRUSTED_BASE + ["computeCellOrder is modelled twice: over exact rationals (coq/CellOrder.v) and in binary32 with Flocq (coq/CellOrderFloat.v: one correctly rounded IEEE-754 operation per C++ operator, double -> float and int -> float conversions; theorems c11_float_* / c11_legalize_float_order_* on |orderingHeight| <= 4, coordinates <= 2^20). Trusted for the binary32 model: the compiler emits one binary32 SSE operation per float operator (x86-64, no -ffast-math, no -mfma; compared bit-exactly through the resulting order on non-dyadic cases by float_tie), Flocq's formalisation of IEEE-754, the real-number axioms of Coq's standard library"],
                 "evaluations": len(run.lines) + ores["runs"], "distinct_nontrivial": len(nontriv) + len(ores["nontrivial_lines"]),
                 "closed_model_order_tie": c11_order.summary(ores),
+                "binary32_model_tie": c11_order.float_summary(fres),
                 "rule": "C01 generator restricted to row-high movable cells (polarities, obstructions, split rows, y gaps), utilisation 30-110% and a sparse "
                         "stream, scale up to 2^16, efforts 1-9, custom ordering parameters over the accepted box in half of the cases; each case legalized twice. "
                         "non-trivial = the first legalization succeeded (so the second one runs on a legal placement); distinct = distinct case lines. "
